@@ -4,13 +4,16 @@ import vf
 from vf import cN, cbool, cstr, clist, cpair
 
 IMPORTS = ("From Coq Require Import List Ascii String NArith Bool.\n"
-           "From Galaxy.Base Require Import Strs.\nFrom Galaxy.Model Require Import Netfilter PortMap.\n"
+           "From Galaxy.Base Require Import Strs.\nFrom Galaxy.Model Require Import Netfilter PortMap PortDaemon.\n"
            "From Galaxy.Corr Require Import CorrBase C14c.\n")
 
 THEOREMS = ["setup_clean_inverse", "setup_all_exact", "setup_all_idem", "ports_distinct_held",
-            "ports_held_until_close", "failed_open_leaves_nothing"]
+            "ports_held_until_close", "failed_open_leaves_nothing",
+            "clean_total", "clean_total_unreferenced", "cleanup_retry_completes", "teardown_success_is_complete",
+            "failed_teardown_keeps_state_file", "teardown_retry_completes", "setup_then_teardown_with_retry",
+            "failed_setup_leaves_nothing"]
 REFUTED = []
-DEPS = ["Strs", "Netfilter", "PortMap", "NetfilterP", "PortMapP", "CorrBase", "C14c", "C14"]
+DEPS = ["Strs", "Netfilter", "PortMap", "PortDaemon", "NetfilterP", "PortMapP", "PortDaemonP", "CorrBase", "C14c", "C14"]
 
 MANIFEST = {
     "text": "Coq theorems over an executable model of portmapping/iptables.go + portmapping.go on a strict netfilter model "
@@ -23,7 +26,13 @@ MANIFEST = {
             "printers; chain-name hash not modelled (theorems assume distinct KUBE-HP- names, names are read from the "
             "implementation); server.go's call sequences are replayed as op templates, not through the CNI server",
 }
-KNOWN_FINDINGS = []
+KNOWN_FINDINGS = [
+    {"id": "F17", "status": "fixed", "commit": "418fae1", "tag": "c14-teardown-missing-chain",
+     "what": "fixed: property=C14 418fae1 CleanPortMapping deleted the jump rules first; checking a rule whose target chain does not "
+             "exist is an iptables ERROR, so tearing down a container whose KUBE-HP chains were gone (set-up batch failed, or removed "
+             "by the start-up synchronisation) failed for ever - the state file stayed and every CNI DEL / GC round failed again "
+             "(Example teardown_refuted_missing_chain_old on Model/PortMap.v clean_old; harness: setup P; setup_all []; clean P)"},
+]
 
 NAT_BUILTIN = ["PREROUTING", "INPUT", "OUTPUT", "POSTROUTING"]
 B32 = "ABCDEFGHIJKLMNOPQRSTUVWXYZ234567"
@@ -451,11 +460,36 @@ def daemon_phase(ctx, n):
     obs = ctx.harness("ports", cases, cmd="ghcni", shards=16)
     if obs is None:
         return
-    for c, o in zip(cases, obs):
+    corr, corr_idx, mons, mon_meta = [], [], [], []
+    for ci, (c, o) in enumerate(zip(cases, obs)):
         ctx.count(c)
         if o is None or o.get("res") != "ok":
             ctx.violation("monitor", "the daemon's port-mapping glue %s" % (o or {}).get("res"), {"case": c, "obs": o}, found=True)
             continue
+        # the model (Model/PortDaemon.v d_setup / d_clean with the fault index of the step), from the OBSERVED state before
+        # every step, and the theorems' predicates on the implementation's own states
+        def cdstate(ob):
+            files = clist(cpair(cstr(cid), clist(cport(p_) for p_ in ps)) for cid, ps in sorted(ob["files"].items()) if isinstance(ps, list))
+            return "(mkD %s %s)" % (ctable(ob["nat"]), files)
+        tbl = cnames([tuple(n_) for n_ in o.get("names") or []])
+        dsteps = []
+        for si, (st, ob) in enumerate(zip(c["steps"], o["steps"])):
+            if si == 0:
+                continue
+            f = "None" if not st.get("fault") else "(Some %d%%nat)" % (st["fault"] - 1)
+            if st["op"] == "setup":
+                ps = clist(cport({"hostPort": p_[0], "containerPort": p_[1], "protocol": p_[2], "hostIP": p_[3], "podName": st["pod"],
+                                  "podIP": st["ip"]}) for p_ in st["ports"])
+                dsteps.append("(DSetup %s %s %s, %s, %s)" % (cstr(st["cid"]), ps, f, cbool(ob["err"]), cdstate(ob)))
+            else:
+                dsteps.append("(DClean %s %s, %s, %s)" % (cstr(st["cid"]), f, cbool(ob["err"]), cdstate(ob)))
+                before = cdstate(o["steps"][si - 1])
+                mons.append("(mon_teardown_ok %s %s %s %s %s)" % (tbl, cstr(st["cid"]), before, cdstate(ob), cbool(ob["err"])))
+                mon_meta.append((ci, si, "teardown_success_is_complete"))
+                mons.append("(mon_teardown_failed_keeps_file %s %s %s %s)" % (cstr(st["cid"]), before, cdstate(ob), cbool(ob["err"])))
+                mon_meta.append((ci, si, "failed_teardown_keeps_state_file"))
+        corr.append("(chk_daemon %s %s %s)" % (tbl, cdstate(o["steps"][0]), clist(dsteps)))
+        corr_idx.append(ci)
         names = {(n_[0], n_[1], n_[2], n_[3]): n_[4] for n_ in o.get("names") or []}
         basic = None
         prev = None
@@ -498,6 +532,24 @@ def daemon_phase(ctx, n):
                           {"case": c, "failing_step": bad[0], "observed": [{k: v for k, v in s_.items() if k != "nat"} for s_ in o["steps"]],
                            "how": "bin/check C14 --replay <this file>"}, found=True, theorem="teardown_retry_completes")
     ctx.cov["daemon_glue_cases"] = len(cases)
+    rc = ctx.coq_bools("dcorr", IMPORTS, corr, shard=10)
+    rm = ctx.coq_bools("dmon", IMPORTS, mons, shard=40)
+    if rc is None or rm is None:
+        ctx.violation("correspondence", "the Coq evaluation of the daemon-glue cases failed", {}, found=False,
+                      theorem="C14 correspondence (Corr/C14c.v chk_daemon)")
+        return
+    for k, b in enumerate(rm):
+        if not b:
+            ci, si, thm = mon_meta[k]
+            ctx.violation("monitor", "the predicate of %s is false on the daemon's own state after step %d (%s)" % (thm, si, cases[ci]["steps"][si]["op"]),
+                          {"case": cases[ci], "failing_step": si, "how": "bin/check C14 --replay <this file>"}, found=True, theorem=thm)
+    badc = [corr_idx[k] for k, b in enumerate(rc) if not b]
+    if badc:
+        ctx.violation("correspondence", "Model/PortDaemon.v and the daemon's port-mapping glue disagree on %d case(s)" % len(badc),
+                      {"disagreements": [{"case": cases[i], "observed": [{k: v for k, v in s_.items() if k != "nat"} for s_ in obs[i]["steps"]]} for i in badc[:3]],
+                       "theorems_no_longer_about_the_code": ["teardown_retry_completes", "setup_then_teardown_with_retry", "failed_setup_leaves_nothing"]},
+                      found=False, theorem="C14 correspondence (Corr/C14c.v chk_daemon)")
+    ctx.cov["traces_validated_against_impl"] = ctx.cov.get("traces_validated_against_impl", 0) + len(corr)
 
 
 def replay(ctx, path):
